@@ -337,6 +337,20 @@ def run_chain(case):
                         'delivered once when it is entered again', 1,
                         len(probes), tail=tail)
                 return res
+            # ... and so must the load-time callbacks that its own request
+            # had left undelivered (it "holds its events until it is
+            # entered again"): each once, before its first frame back
+            for kind in ('on_add', 'on_world_load'):
+                seen = [e for e in log if e['kind'] == kind and e['w'] == Wb]
+                res.stats['held_load_callbacks_checked'] += 1
+                if len(seen) != 1 or seen[0]['seq'] > back_frames[0]['seq']:
+                    res.div(ret['seq'], 'chain-return-load-callbacks',
+                            f'the load-time callback {kind} of a world whose '
+                            'entry was cut short by its own switch request '
+                            'must have been delivered exactly once by the '
+                            'time it runs again', 1,
+                            [_short(e) for e in seen], tail=tail)
+                    return res
         log = log[:ret['seq']]
     requests = [e for e in log if e['kind'] == 'request']
     if len(requests) != len(links) + 1:
